@@ -25,6 +25,12 @@ pub struct NodeSpec {
     pub bmca_phase_ns: u64,
     #[serde(default)]
     pub path_trace: bool,
+    #[serde(default = "default_p2")]
+    pub p2: u8,
+}
+
+fn default_p2() -> u8 {
+    128
 }
 
 #[derive(Clone, Debug, serde::Serialize, serde::Deserialize)]
@@ -62,6 +68,7 @@ pub fn build_sim(t: &Topo) -> Result<Sim, PanicInfo> {
         let mut b = Build::new(ns.id);
         b.n_ports = ns.n_ports;
         b.priority1 = ns.p1;
+        b.priority2 = ns.p2;
         b.clock_class = ns.class;
         b.slave_only = ns.slave_only;
         b.path_trace = ns.path_trace;
@@ -78,7 +85,7 @@ pub fn build_sim(t: &Topo) -> Result<Sim, PanicInfo> {
 }
 
 fn own_of(ns: &NodeSpec, class_now: u8) -> Own {
-    Own { id: clock_id(ns.id).0, p1: ns.p1, class: class_now, acc: 0xfe, var: 0x8000 - 23 * 256, p2: 128, slave_only: ns.slave_only }
+    Own { id: clock_id(ns.id).0, p1: ns.p1, class: class_now, acc: 0xfe, var: 0x8000 - 23 * 256, p2: ns.p2, slave_only: ns.slave_only }
 }
 
 /// connected components over alive nodes and up links
@@ -375,7 +382,8 @@ pub fn run_case(rep: &mut Report, t: &Topo, verbose: bool) {
 
 fn node_spec(rng: &mut StdRng, id: u8, n_ports: usize, allow_low_class: bool) -> NodeSpec {
     let class = if allow_low_class && rng.gen_bool(0.15) { [6u8, 7, 127][rng.gen_range(0..3)] } else { [128u8, 187, 248][rng.gen_range(0..3)] };
-    NodeSpec { id, p1: [100u8, 128, 128, 200][rng.gen_range(0..4)], class, slave_only: false, n_ports, bmca_phase_ns: rng.gen_range(0..I_NS), path_trace: false }
+    // priority1 ties are frequent on purpose: priority2 (and then the identity) decides
+    NodeSpec { id, p1: [100u8, 128, 128, 128, 200][rng.gen_range(0..5)], class, slave_only: false, n_ports, bmca_phase_ns: rng.gen_range(0..I_NS), path_trace: false, p2: [128u8, 128, 10, 50, 200, 255][rng.gen_range(0..6)] }
 }
 
 pub fn gen_topo(rng: &mut StdRng) -> Topo {
